@@ -16,5 +16,9 @@ def run(ctx):
     LK.k2_root_identity(ctx, K, modules=("bijection",), floor=1)
     LK.k2_spec_roots(ctx, K, modules=("bijection",))
     LK.k1_finder_labels(ctx, K)
+    LK.k8_strategy_parent_pairing(ctx, modules=("bijection", "specification_extrator"))
+    LK.k9_index_order(ctx)
+    ctx.floor("K8", 4)
+    ctx.floor("K9", 2)
     ctx.floor("K2", 3)
     ctx.floor("K1", 11)
